@@ -635,11 +635,33 @@ class Interp(InterpBase):
                 elif isinstance(t, ast.Subscript):
                     c = self.eval(t.value, frame)
                     k = self.eval(t.slice, frame)
-                    if isinstance(c, (list, dict)) and (is_native(k) or isinstance(c, dict)):
+                    if isinstance(c, dict):
+                        key = self.dict_key(c, _hashable(k))
+                        if key is _MISSING:
+                            if self.opened(c) is not None and self.decide(self.member_atom(self.opened(c), k)):
+                                self.opened(c).epoch += 1
+                                continue
+                            raise Raised(None, "KeyError")
+                        del c[key]
+                        if self.opened(c) is not None:
+                            self.opened(c).epoch += 1
+                    elif isinstance(c, list) and self.opened(c) is None and isinstance(k, (int, slice)) and not isinstance(k, bool):
                         try:
                             del c[k]
-                        except (KeyError, IndexError) as e:
-                            raise Raised(None, type(e).__name__)
+                        except IndexError:
+                            raise Raised(None, "IndexError")
+                    elif isinstance(c, list) and self.opened(c) is not None:
+                        self.opened(c).epoch += 1  # some element goes: which one is not known
+                    elif isinstance(c, (Term, Seq, list)) and isinstance(t.value, (ast.Name, ast.Attribute)):
+                        # `del xs[k:]` / `del xs[:k]` on a sequence only known as a term: the variable now holds what is left
+                        lo, hi, st = (k.start, k.stop, k.step) if isinstance(k, slice) else k.args if isinstance(k, App) and k.fn == "slice" else (0, 0, 0)
+                        if st is None and hi is None and lo is not None:
+                            left = self.subscript(c, App("slice", (None, lo, None)) if isinstance(lo, Term) else slice(None, lo), s, frame)
+                        elif st is None and lo is None and hi is not None:
+                            left = self.subscript(c, App("slice", (hi, None, None)) if isinstance(hi, Term) else slice(hi, None), s, frame)
+                        else:
+                            left = App("without", (_h(c), _h(k)))
+                        self.assign(t.value, left, frame)
                     else:
                         raise Unsupported("del of a symbolic subscript", s, fi)
                 elif isinstance(t, ast.Attribute):
@@ -1434,10 +1456,18 @@ class Interp(InterpBase):
         elif isinstance(t, (ast.Tuple, ast.List)):
             if any(isinstance(x, ast.Starred) for x in t.elts):
                 kind, items = self.iterate(v, t, frame)
-                if kind != "concrete":
-                    raise Unsupported("starred unpacking of an unknown iterable", t, frame.fi)
                 k = [i for i, x in enumerate(t.elts) if isinstance(x, ast.Starred)][0]
                 after = len(t.elts) - k - 1
+                if kind != "concrete":
+                    # a sequence of unknown length: fixed positions are subscripts from either end, the starred name holds the slice between
+                    if not isinstance(v, (Term, Seq)):
+                        raise Unsupported("starred unpacking of an unknown iterable", t, frame.fi)
+                    for i, x in enumerate(t.elts[:k]):
+                        self.assign(x, self.subscript(v, i, t, frame), frame)
+                    self.assign(t.elts[k].value, self.subscript(v, slice(k, -after if after else None), t, frame), frame)
+                    for j, x in enumerate(t.elts[k + 1:]):
+                        self.assign(x, self.subscript(v, -(after - j), t, frame), frame)
+                    return
                 if len(items) < len(t.elts) - 1:
                     raise Raised(None, "ValueError")
                 for x, item in zip(t.elts[:k], items[:k]):
